@@ -91,10 +91,27 @@ def execute(prop, nranks, sched, tape, rank_fn, post_fn=None):
     (e.g. nontrivial, extra probes).
     """
     from mpi4py import MPI
-    w = World(nranks, sched, tape)
+    # bystanders: further ranks of the simulated job that are not part of the computation.  The ranks under
+    # test get the communicator world.Split(...) instead of the world itself, so their rank in the world
+    # differs from their rank in the communicator they were given, and any collective the library sends to
+    # MPI.COMM_WORLD instead of that communicator meets ranks that never answer (deadlock / mismatch monitor)
+    by = sorted(int(x) for x in (sched.get('bystanders') or []))
+    while any(b >= nranks + len(by) for b in by):        # positions drawn for a larger World of the same case
+        by = [b for b in by if b < nranks + len(by)]
+    total = nranks + len(by)
+    w = World(total, sched, tape)
+    w.bystanders = tuple(by)
 
     def fn(r):
-        return rank_fn(MPI.world_comm(w, r), r)
+        if not by:
+            return rank_fn(MPI.world_comm(w, r), r)
+        wc = MPI.world_comm(w, r)
+        if r in by:
+            own = wc.Split(1, r)
+            own.Barrier()
+            return None
+        sub = wc.Split(0, r)
+        return rank_fn(sub, sub.Get_rank())
     res = dict(status='ok', prop=prop, kind=None, message=None, detail=None, nontrivial=True,
                finding_key=None)
     try:
@@ -103,6 +120,9 @@ def execute(prop, nranks, sched, tape, rank_fn, post_fn=None):
         res.update(status='harness', kind='harness-exception', message=repr(e),
                    detail=traceback.format_exc())
         return _finish(res, w)
+    if by:
+        results = [x for r, x in enumerate(results) if r not in by]
+        w.probe('bystander_ranks_in_world')
     if w.job_aborted and w.error is None:
         res['status'] = 'aborted'
         return _finish(res, w, results)
@@ -137,7 +157,7 @@ def execute(prop, nranks, sched, tape, rank_fn, post_fn=None):
 def _classify_exception(res, w):
     excs = [(r, e) for r, e in enumerate(w.excs) if e is not None]
     types = {e[0] for _, e in excs}
-    if types == {'Skip'} and len(excs) == w.n:
+    if types == {'Skip'} and len(excs) == w.n - len(getattr(w, 'bystanders', ())):
         res.update(status='skip', kind='skip', message=excs[0][1][1])
         return
     if 'Skip' in types:
